@@ -9,7 +9,7 @@ pub mod verif {
         db: &Db,
         arrivals: [(u64, Db::SerializationBuffer); N],
         shutting_down: bool,
-    ) {
+    ) -> usize {
         let (after_commit_sender, after_commit_receiver) =
             crossbeam_channel::unbounded::<AfterCommitTask<Db>>();
         let shutting_down = Arc::new(AtomicBool::new(shutting_down));
@@ -26,7 +26,11 @@ pub mod verif {
         // ---- end of `commit_worker` body ----
 
         std::mem::forget(shutting_down);
+        // notifications that really went through the channel (native replay: the Kani stub of
+        // `Sender::send` is not applied there; under Kani the stub counts them and this is 0)
+        let delivered = after_commit_receiver.len();
         std::mem::forget(after_commit_receiver);
+        delivered
     }
 
     /// `Ord for WriteTask` on its own: smaller epoch = greater (min-heap through a max-heap)
